@@ -233,7 +233,7 @@ func TestC06(t *testing.T) {
 	}
 	// ---- v3 environmental: sample of the full product ---------------------------------------
 	{
-		total := uint64(pick(2000000, 20000000))
+		total := uint64(pick(8000000, 20000000))
 		key := mix(uint64(seed), 0xc06)
 		for k := uint64(shard); k < total && nviol == 0; k += uint64(shards) {
 			n := permIndex(k, layer2Space, key)
